@@ -49,6 +49,9 @@ def gen_traj(rng, t0, dur, rate_hz, kind):
     t = t0 + rng.uniform(0, 0.05)
     dt = 1.0 / rate_hz
     n = 0
+    pause_at = rng.randrange(3, 12)
+    if kind == "long-pause":
+        speed = 0.0            # standing still: no dynamics trigger can hide the missing time trigger
     while t < t0 + dur:
         if kind == "accelerating":
             speed = max(0.0, speed + rng.choice((0.0, 0.3, 0.6, 1.2)) * dt * 5)
@@ -73,6 +76,9 @@ def gen_traj(rng, t0, dur, rate_hz, kind):
         reps.append((t, tpv))
         if kind == "dropouts" and rng.random() < 0.15:
             t += rng.choice((0.7, 1.5, 3.0, 6.5, 65.6))     # the gap follows this report (65.6 s: beyond one generationDeltaTime cycle)
+        if kind == "long-pause" and n == pause_at:
+            # the next report comes one generationDeltaTime cycle (65 536 ms) plus less than T_GenVamMin after this one
+            t += 65.536 + rng.uniform(0.0, 0.09) - dt
         t += dt
         n += 1
     return reps
@@ -363,6 +369,8 @@ def gen_case(rng, which):
             c["restart"] = c["stop"] + rng.choice((0.05, 0.5, 1.3))
     if which == "vam" and kind == "dropouts" and rng.random() < 0.3:
         c["rate"] = 1
+    if which == "vam" and rng.random() < 0.12:
+        c.update(kind="long-pause", dur=72, rate=rng.choice((5, 10, 20)))
     return c
 
 
